@@ -243,15 +243,19 @@ impl Scenario {
         matches!(self.mode, 0 | 2 | 3)
     }
 
-    /// What one call must contribute to the sink, as one contiguous block.
-    fn expected_record(&self, call: &Call) -> Option<Vec<u8>> {
+    /// What one call must contribute to the sink, as one contiguous block: the rendering the
+    /// scenario's mode predicts first, the other one second (which of the two comes out is a
+    /// question of mode - C08 - not of contiguity, so both are accepted).
+    fn expected_record(&self, call: &Call) -> Option<[Vec<u8>; 2]> {
         let raw: String = call.frags.concat();
         let raw = match call.kind {
             CallKind::Fmt | CallKind::WriteAll => raw,
             CallKind::Fmtln => raw + "\n",
             _ => return None,
         };
-        Some(if self.strips() { anstream::adapter::strip_str(&raw).to_string().into_bytes() } else { raw.into_bytes() })
+        let stripped = anstream::adapter::strip_str(&raw).to_string().into_bytes();
+        let raw = raw.into_bytes();
+        Some(if self.strips() { [stripped, raw] } else { [raw, stripped] })
     }
 
     fn to_json(&self) -> Value {
@@ -405,7 +409,7 @@ fn thread_body(sc: &Scenario, t: usize, out: SimStdout, reg: Arc<std::sync::Mute
 /// The invariant, evaluated after all simulated threads have been joined.
 fn check(sc: &Scenario, sink: &[u8], reg: &[RegEvent]) -> Result<u64, String> {
     // expected records per thread, in order
-    let per_thread: Vec<Vec<Vec<u8>>> =
+    let per_thread: Vec<Vec<[Vec<u8>; 2]>> =
         sc.threads.iter().map(|calls| calls.iter().filter_map(|c| sc.expected_record(c)).collect()).collect();
     let mut next = vec![0usize; per_thread.len()];
     let mut pos = 0usize;
@@ -414,13 +418,17 @@ fn check(sc: &Scenario, sink: &[u8], reg: &[RegEvent]) -> Result<u64, String> {
     let mut started_group = vec![false; per_thread.len()];
     while pos < sink.len() {
         let mut matched = None;
-        for (t, recs) in per_thread.iter().enumerate() {
-            if next[t] < recs.len() && sink[pos..].starts_with(&recs[next[t]]) {
-                matched = Some(t);
-                break;
+        'find: for (t, recs) in per_thread.iter().enumerate() {
+            if next[t] < recs.len() {
+                for form in &recs[next[t]] {
+                    if sink[pos..].starts_with(form) {
+                        matched = Some((t, form.len()));
+                        break 'find;
+                    }
+                }
             }
         }
-        let Some(t) = matched else {
+        let Some((t, len)) = matched else {
             let tail = String::from_utf8_lossy(&sink[pos..(pos + 60).min(sink.len())]).escape_debug().to_string();
             return Err(format!(
                 "output is not a concatenation of whole records: at byte {pos} no thread's next record starts here: {tail:?} (sink: {:?})",
@@ -432,7 +440,7 @@ fn check(sc: &Scenario, sink: &[u8], reg: &[RegEvent]) -> Result<u64, String> {
         // build the stream)
         let _ = (&last_thread, &started_group);
         started_group[t] = true;
-        pos += per_thread[t][next[t]].len();
+        pos += len;
         order.byte(t as u8);
         next[t] += 1;
         last_thread = Some(t);
